@@ -11,6 +11,8 @@ import (
 	"github.com/wmnsk/go-pfcp/message"
 	"pgregory.net/rapid"
 
+	"github.com/free5gc/go-upf/internal/pfcp"
+	upfreport "github.com/free5gc/go-upf/internal/report"
 	"github.com/free5gc/go-upf/internal/verif/fullstack"
 	"github.com/free5gc/go-upf/internal/verif/simkernel"
 	"github.com/free5gc/go-upf/internal/verif/stack"
@@ -64,6 +66,9 @@ type Ev struct {
 	Reps []Rep    `json:"reps,omitempty"`
 	Per  int      `json:"per,omitempty"`
 	Vals Vals     `json:"vals"`
+	// SendFail (mcast): the UPF's socket refuses writes while the Session Report Requests of this batch are first transmitted (a
+	// full device queue, a route flap); the requests are outstanding all the same and their retransmission delivers the reports
+	SendFail bool `json:"send_fail,omitempty"`
 }
 
 type Case struct {
@@ -221,12 +226,13 @@ type stats struct {
 	multiSess, unknown, big bool
 	manyPerTick             bool // one tick had more than 56 URRs to report (several netlink requests)
 	takeover                bool
+	sendFailed              bool // the first transmission of a batch's requests failed; their retransmission was looked at
 	reports                 int
 }
 
 func run(c Case) (v *vcore.Violation, stt stats) {
 	vcore.Journal(c)
-	f, err := fullstack.NewFull(fullstack.FullOpts{Nodes: 2})
+	f, err := fullstack.NewFull(fullstack.FullOpts{Nodes: 2, MaxRetrans: 3})
 	if err != nil {
 		panic("infrastructure: " + err.Error())
 	}
@@ -395,16 +401,53 @@ func run(c Case) (v *vcore.Violation, stt stats) {
 			if len(mr) == 0 {
 				continue
 			}
+			var txBefore map[string]pfcp.VerifTx
+			if ev.SendFail {
+				txBefore = f.S.Srv.VerifTxTable()
+				f.S.Srv.VerifFailSends(true)
+			}
 			if err := f.D.K.SendReports(mr); err != nil {
 				panic("infrastructure: " + err.Error())
 			}
 			if !f.D.K.Flush(20 * time.Second) {
+				f.S.Srv.VerifFailSends(false)
 				return vcore.Violatef("mcast-not-consumed", "%s: the netlink listener did not consume the REPORT message", what), stt
 			}
 			o := &stack.Obs{Rx: map[int][]stack.Datagram{}, Msgs: map[int][]message.Message{}, NewSess: -1}
-			r.Collect(o)
-			if x := dead(o, what); x != nil {
-				return x, stt
+			if ev.SendFail {
+				// the listener has queued the notifications; the loop takes them in order: once a no-op notification queued behind
+				// them is gone, they have been served
+				f.S.Srv.NotifySessReport(upfreport.SessReport{SEID: 0xdead0001})
+				for t1 := time.Now(); time.Since(t1) < 5*time.Second; {
+					if _, sr, _ := f.S.Srv.VerifQueues(); sr == 0 {
+						break
+					}
+					time.Sleep(50 * time.Microsecond)
+				}
+				f.S.Srv.VerifFailSends(false)
+				r.Collect(o)
+				if x := dead(o, what); x != nil {
+					return x, stt
+				}
+				if len(o.SRRs) == 0 {
+					stt.sendFailed = true
+				}
+				// the retransmission timers of the requests whose first transmission failed expire
+				for id := range f.S.Srv.VerifTxTable() {
+					if _, old := txBefore[id]; old {
+						continue
+					}
+					o2 := r.Step(stack.Op{Kind: "expire_tx", TrID: id})
+					if x := dead(o2, what); x != nil {
+						return x, stt
+					}
+					o.SRRs = append(o.SRRs, o2.SRRs...)
+				}
+			} else {
+				r.Collect(o)
+				if x := dead(o, what); x != nil {
+					return x, stt
+				}
 			}
 			// sessions whose every report was dropped may or may not get an empty request
 			for s, ws := range exp {
@@ -748,6 +791,7 @@ func gen(t *rapid.T) Case {
 		ev := Ev{Kind: k, Sess: rapid.IntRange(0, ns-1).Draw(t, "sess"), Vals: genVals(t)}
 		switch k {
 		case "mcast":
+			ev.SendFail = rapid.IntRange(0, 5).Draw(t, "send_fail") == 0
 			nr := rapid.IntRange(1, 8).Draw(t, "nrep")
 			for j := 0; j < nr; j++ {
 				rp := Rep{Sess: rapid.IntRange(-1, ns-1).Draw(t, "rsess"), URR: uint32(rapid.IntRange(1, 4).Draw(t, "urr")), Cause: rapid.IntRange(0, 17).Draw(t, "cause"), Vals: genVals(t)}
@@ -798,6 +842,9 @@ func brief(c Case) any {
 func account(c Case, s stats) {
 	vcore.E.Eval()
 	vcore.E.ClassN("usage_reports_expected", int64(s.reports))
+	if s.sendFailed && s.reports > 0 {
+		vcore.E.Class("reports_delivered_by_a_retransmission_after_a_failed_first_transmission")
+	}
 	if s.manyPerTick {
 		vcore.E.Class("tick_with_more_than_56_reports")
 	}
